@@ -761,9 +761,9 @@ func genCase(r *Rng, nops int, maxlayers int, limit int, adversarial bool, deep 
 }
 
 func gen(r *Rng, tier string, emit func(Sx)) {
-	ncases, maxOps := 140, 45
+	ncases, maxOps := 400, 45
 	if tier == "thorough" {
-		ncases, maxOps = 1500, 60
+		ncases, maxOps = 4000, 60
 	}
 	limits := []int{0, 0, 40, 150, 1 << 20}
 	layers := []int{1, 1, 2, 2, 3, 5, 128}
